@@ -10,6 +10,7 @@ import Driver.C11
 import Driver.C12
 import Driver.C14
 import Driver.C15
+import Driver.C17Refit
 import Driver.C16
 import Driver.Schema
 /-! `nvdriver`: reads one command per line on stdin, prints one observation line per command.
@@ -17,7 +18,7 @@ Command names may carry type suffixes (`c18.erase.u16`): the model is width-agno
 longest registered prefix decides. -/
 open Driver
 
-def allHandlers : List (String × Handler) := C18.handlers ++ C06.handlers ++ C19.handlers ++ C20.handlers ++ C04.handlers ++ C09.handlers ++ C17.handlers ++ C11.handlers ++ C12.handlers ++ C14.handlers ++ C15.handlers ++ C16.handlers
+def allHandlers : List (String × Handler) := C18.handlers ++ C06.handlers ++ C19.handlers ++ C20.handlers ++ C04.handlers ++ C09.handlers ++ C17.handlers ++ C11.handlers ++ C12.handlers ++ C14.handlers ++ C15.handlers ++ C16.handlers ++ C17Refit.handlers
 
 def findHandler (name : String) : Option Handler :=
   let cands := allHandlers.filter fun (n, _) => name == n || name.startsWith (n ++ ".")
